@@ -1300,4 +1300,208 @@ theorem Inv2.step (fl : Flags) (hfl : fl.readyGuarded = true) {s : St} (h : Inv2
       (fun j hj => hgw j (List.mem_cons_of_mem _ hj)) cb hgp hcb
       (fun j e => hgw j (by rw [e]; exact List.mem_cons_self)) hns
 
+theorem Inv2.steps (fl : Flags) (hfl : fl.readyGuarded = true) : ∀ (k : Nat) {s : St}, Inv2 s →
+    Inv2 (St.steps fl s k) ∧ FTr s.jobs (St.steps fl s k).jobs := by
+  intro k
+  induction k with
+  | zero => intro s h; exact ⟨h, FTr.refl _⟩
+  | succ k ih =>
+    intro s h
+    obtain ⟨h1, t1⟩ := h.step fl hfl
+    obtain ⟨h2, t2⟩ := ih h1
+    exact ⟨h2, t1.trans t2⟩
+
+/-! ### events -/
+
+theorem G.submitFresh {n jobs ready jd td failed} (hi : Inv' n jobs ready jd td) (h : G n jobs jd failed) (fresh : Job)
+    (hpc : fresh.pc = .none) (hst : fresh.state = .unscheduled) (hw : ∀ i, i < fresh.deps.length → curAt fresh i = .wait)
+    (hl : fresh.launches = 0) (hfd : fresh.failedDep = false) (hsl : fresh.sleeping = false)
+    (hself : ∀ i, i < fresh.deps.length → orgAt fresh i ≠ .job n) :
+    G (n + 1) (upd jobs n fresh) jd failed := by
+  have hpn : (jobs n).pc = .none := hi.fresh n (Nat.le_refl _)
+  have hsn : (jobs n).state = .unscheduled := (hi.loc n).none_unsched hpn
+  have hpair : ∀ o, ∀ p ∈ jd o, p.1 ≠ n := by
+    intro o p hp e; exact (hi.jdeps o p hp).1 (e ▸ hsn)
+  have hother : ∀ o, (upd jobs n fresh o).state = .error → (jobs o).state = .error ∧ o ≠ n := by
+    intro o he
+    by_cases e : o = n
+    · subst e; rw [upd_same, hst] at he; simp at he
+    · simp only [Sched.upd, e, if_false] at he; exact ⟨he, e⟩
+  refine ⟨?_, ?_, ?_, ?_, ?_, ?_, ?_, ?_⟩
+  · intro j; unfold Sched.upd; split
+    · show FLoc' _ _ _ _ _ _ _ _ _
+      rw [hpc, hst, hl, hfd]
+      constructor
+      · simp [inStart]
+      · simp
+      · simp
+      · simp
+      · simp [pcFinal, pcFin]
+      · rintro ⟨i, hi', hc⟩; rw [hw i hi'] at hc; simp at hc
+      · simp
+      · simp
+    · exact h.floc j
+  · intro j i hi' hc
+    by_cases e : j = n
+    · subst e; rw [upd_same] at hi' hc; rw [hw i hi'] at hc; simp at hc
+    · simp only [Sched.upd, e, if_false] at hi' hc
+      obtain ⟨o, ho, he⟩ := h.g1 j i hi' hc
+      have hne : o ≠ n := by intro e'; subst e'; rw [hsn] at he; simp at he
+      exact ⟨o, by simp only [Sched.upd, e, if_false]; exact ho, by simp only [Sched.upd, hne, if_false]; exact he⟩
+  · intro o p hp
+    have := hpair o p hp
+    simp only [Sched.upd, this, if_false]; exact h.g0 o p hp
+  · intro j hs
+    by_cases e : j = n
+    · subst e; rw [upd_same, hpc] at hs; simp [started] at hs
+    · simp only [Sched.upd, e, if_false] at hs
+      intro i hi' o ho
+      simp only [Sched.upd, e, if_false] at hi' ho
+      exact h.gR j hs i hi' o ho
+  · intro y
+    rw [h.gF y]
+    constructor
+    · rintro ⟨j, hj⟩
+      have hne : j ≠ n := by intro e; subst e; rw [hsn] at hj; simp at hj
+      exact ⟨j, by simp only [Sched.upd, hne, if_false]; exact hj⟩
+    · rintro ⟨j, hj⟩
+      have := hother j hj.2.1
+      simp only [Sched.upd, this.2, if_false] at hj
+      exact ⟨j, hj⟩
+  · intro j hj
+    have : j ≠ n := by omega
+    simp only [Sched.upd, this, if_false]; exact h.gN j (by omega)
+  · intro j i hi'
+    by_cases e : j = n
+    · subst e; rw [upd_same] at hi' ⊢; exact hself i hi'
+    · simp only [Sched.upd, e, if_false] at hi' ⊢; exact h.gS j i hi'
+  · intro j hs
+    by_cases e : j = n
+    · subst e; rw [upd_same, hsl] at hs; simp at hs
+    · simp only [Sched.upd, e, if_false] at hs ⊢; exact h.gSl j hs
+
+/-- relation between the states before and after one event. -/
+structure ETr (s s' : St) : Prop where
+  step : ∀ j, j < s.n → FStep (s.jobs j) (s'.jobs j)
+  n : s.n ≤ s'.n
+
+theorem ETr.of_FTr {s s' : St} (h : FTr s.jobs s'.jobs) (hn : s'.n = s.n) : ETr s s' :=
+  ⟨fun j _ => h j, by omega⟩
+
+theorem ETr.trans {a b c : St} (h1 : ETr a b) (h2 : ETr b c) : ETr a c :=
+  ⟨fun j hj => (h1.step j hj).trans (h2.step j (by have := h1.n; omega)), by have := h1.n; have := h2.n; omega⟩
+
+theorem Inv2.addReady {s : St} (h : Inv2 s) (cbs : List Cb)
+    (hcbs : ∀ cb ∈ cbs, CbOK s.jobs cb ∧ notStart cb) (hw : ∀ j, Cb.wake j ∉ cbs) :
+    Inv2' s.n s.jobs (s.ready ++ cbs) s.jobDeps s.tokDeps s.failed :=
+  ⟨⟨Inv'.addReady h.toInv cbs hcbs, h.core.g⟩, h.gp.mono (fun _ hm => List.mem_append_left _ hm), h.gw.addNoWake hw⟩
+
+/-- a submission names, after resolution of duplicates (`eff`), earlier jobs only. -/
+def EffOK (s : St) : Ev → Prop
+  | .submit _ deps _ _ => ∀ d, Origin.job d ∈ deps → s.eff d < s.n
+  | _ => True
+
+theorem Inv2.submitPre {s : St} (h : Inv2 s) (ident : Nat) (deps : List Origin) (code : Nat) (marker : Bool)
+    (hev : ∀ d, Origin.job d ∈ deps → s.eff d < s.n) :
+    Inv2 (SchedDeps.submitPre s ident deps code marker) ∧ ∀ j, j ≠ s.n → (SchedDeps.submitPre s ident deps code marker).jobs j = s.jobs j := by
+  have hI := h.toInv.submitPre ident deps code marker
+  have hpn : (s.jobs s.n).pc = .none := h.toInv.fresh s.n (Nat.le_refl _)
+  have hsn : (s.jobs s.n).state = .unscheduled := (h.toInv.loc s.n).none_unsched hpn
+  generalize hfr : ({ ident := ident, deps := deps.map (fun o => match o with
+      | .job d => { origin := .job (s.eff d) : Dep }
+      | o => { origin := o }), code := code, marker := marker } : Job) = fresh
+  have hmem : ∀ x ∈ fresh.deps, x.cur = .wait ∧ x.origin ≠ .job s.n := by
+    subst hfr; intro x hx
+    obtain ⟨o, ho, rfl⟩ := List.mem_map.mp hx
+    cases o with
+    | job d => exact ⟨rfl, by have := hev d ho; simp; omega⟩
+    | tok t c => exact ⟨rfl, by simp⟩
+  have hjobs : (SchedDeps.submitPre s ident deps code marker).jobs = upd s.jobs s.n fresh := by subst hfr; rfl
+  have hG : G (s.n + 1) (upd s.jobs s.n fresh) s.jobDeps s.failed := by
+    apply G.submitFresh h.toInv h.core.g fresh (by subst hfr; rfl) (by subst hfr; rfl) _ (by subst hfr; rfl)
+      (by subst hfr; rfl) (by subst hfr; rfl)
+    · intro i hi; obtain ⟨x, hx, e1, -⟩ := mem_of_lt hi; rw [← e1]; exact (hmem x hx).2
+    · intro i hi; obtain ⟨x, hx, -, e2⟩ := mem_of_lt hi; rw [← e2]; exact (hmem x hx).1
+  have hne : ∀ j, j ≠ s.n → upd s.jobs s.n fresh j = s.jobs j := by intro j hj; simp [Sched.upd, hj]
+  refine ⟨⟨⟨hI, ?_⟩, ?_, ?_⟩, by rw [hjobs]; exact hne⟩
+  · show G (s.n + 1) (SchedDeps.submitPre s ident deps code marker).jobs s.jobDeps s.failed
+    rw [hjobs]; exact hG
+  · show GP (SchedDeps.submitPre s ident deps code marker).jobs (s.ready ++ [.register s.n]) s.jobDeps
+    rw [hjobs]
+    intro o p hp he hf
+    have hp1 : p.1 ≠ s.n := by intro e; exact (h.toInv.jdeps o p hp).1 (e ▸ hsn)
+    have ho : o ≠ s.n := by
+      intro e; subst e; rw [upd_same] at he
+      have : fresh.state = .unscheduled := by subst hfr; rfl
+      rw [this] at he; simp at he
+    rw [hne o ho] at he hf; rw [hne p.1 hp1]
+    exact (h.gp o p hp he hf).imp id (List.mem_append_left _)
+  · show GW (SchedDeps.submitPre s ident deps code marker).jobs (s.ready ++ [.register s.n])
+    rw [hjobs]
+    intro j hj
+    have hj' : Cb.wake j ∈ s.ready := by simpa using hj
+    have := h.gw j hj'
+    have hjn : j ≠ s.n := by intro e; subst e; rw [hpn] at this; simp [started] at this
+    rw [hne j hjn]; exact this
+
+theorem Inv2.apply (fl : Flags) (hfl : fl.readyGuarded = true) {s : St} (h : Inv2 s) (ev : Ev) (hev : EffOK s ev) :
+    Inv2 (s.apply fl ev) ∧ ETr s (s.apply fl ev) := by
+  cases ev with
+  | step =>
+    obtain ⟨h1, t1⟩ := h.step fl hfl
+    exact ⟨h1, ETr.of_FTr t1 (step_n fl s)⟩
+  | wait =>
+    refine ⟨?_, ETr.of_FTr (FTr.refl _) rfl⟩
+    apply h.addReady
+    · intro cb hcb; simp at hcb; subst hcb; exact ⟨trivial, trivial⟩
+    · simp
+  | deliver k =>
+    simp only [St.apply]
+    split
+    · refine ⟨?_, ETr.of_FTr (FTr.refl _) rfl⟩
+      apply h.addReady
+      · intro cb hcb; simp at hcb; subst hcb; exact ⟨trivial, trivial⟩
+      · simp
+    · exact ⟨h, ETr.of_FTr (FTr.refl _) rfl⟩
+  | submit ident deps code marker =>
+    have hI := (h.toInv.apply fl hfl (.submit ident deps code marker)).1
+    rw [apply_submit_eq] at hI ⊢
+    obtain ⟨h1, hne⟩ := h.submitPre ident deps code marker hev
+    obtain ⟨h2, t2⟩ := Inv2.steps fl hfl (s.ready.length + 1) h1
+    have hn2 := steps_n fl (s.ready.length + 1) (SchedDeps.submitPre s ident deps code marker)
+    have hpre : ((SchedDeps.submitPre s ident deps code marker).jobs s.n).pc = .none := by
+      simp [SchedDeps.submitPre, Sched.upd]
+    obtain ⟨-, k2⟩ := Inv.steps fl hfl (s.ready.length + 1) (h.toInv.submitPre ident deps code marker)
+    generalize St.steps fl (SchedDeps.submitPre s ident deps code marker) (s.ready.length + 1) = s2 at hI h2 t2 hn2 k2 ⊢
+    have hn2' : s2.n = s.n + 1 := hn2
+    have hp2 : (s2.jobs s.n).pc = .none := k2.pcnone s.n hpre
+    have hs2 : (s2.jobs s.n).state = .unscheduled := (h2.toInv.loc s.n).none_unsched hp2
+    have hetr : ∀ s' : St, FTr s2.jobs s'.jobs → s'.n = s2.n → ETr s s' := by
+      intro s' t3 hn3
+      refine ⟨fun j hj => ?_, by omega⟩
+      have := (t2 j).trans (t3 j)
+      rw [hne j (by omega)] at this; exact this
+    simp only at hI ⊢
+    revert hI
+    split
+    · intro _; exact ⟨h2, hetr _ (FTr.refl _) rfl⟩
+    · intro hI
+      have hst : FStep (s2.jobs s.n) { (s2.jobs s.n) with pc := .created } :=
+        ⟨id, rfl, rfl, rfl, rfl, rfl, fun _ => id, fun e => by rw [hp2] at e; simp [started] at e⟩
+      refine ⟨⟨⟨hI, ?_⟩, ?_, ?_⟩, hetr _ (FTr.updJob hst) rfl⟩
+      · apply h2.core.g.updJob s.n _ _ _ hst (hg1_same h2.core.g s.n _ hst rfl)
+        · intro e; simp [started] at e
+        · simp [hs2]
+        · show FLoc' (s2.jobs s.n).state .created (s2.jobs s.n).deps.length (orgAt (s2.jobs s.n)) (curAt (s2.jobs s.n))
+            (s2.jobs s.n).launches (s2.jobs s.n).failedDep (s2.jobs s.n).code (s2.jobs s.n).marker
+          obtain ⟨f1, f2, f3, f4, f5, f6, f7, f9⟩ := h2.core.g.floc s.n
+          have hl0 := ((h2.toInv.loc s.n).unsched hs2).2.2.1
+          rw [hp2] at f1 f2 f3 f5
+          constructor <;> grind [inStart, pcFinal, pcFin]
+        · intro e
+          have := h2.core.g.gSl s.n e
+          rw [hp2] at this; simp [started] at this
+      · exact (GP.updJob h2.gp s.n _ hst.to0 (by simp [hs2])).mono (fun _ hm => List.mem_append_left _ hm)
+      · exact (GW.updJob h2.gw s.n _ hst.to0).addNoWake (by simp)
+
 end XpmVerif.SchedFail
